@@ -633,6 +633,21 @@ impl<'tcx> Interp<'tcx> {
             let v = self.top_of(ret, 0);
             return one(v);
         }
+        if n == "core::result::Result::<T, E>::unwrap_or" || n == "core::option::Option::<T>::unwrap_or" {
+            let good = if n.starts_with("core::option") { 1 } else { 0 };
+            if let Val::Enum(e) = a.get(0)? {
+                let mut out: Option<Val> = None;
+                for (k, fs) in &e.variants {
+                    let piece = if *k == good { fs.get(0).cloned().unwrap_or(Val::Top) } else { a.get(1)?.clone() };
+                    out = Some(match out {
+                        Some(o) => o.join(&piece),
+                        None => piece,
+                    });
+                }
+                return one(out?);
+            }
+            return None;
+        }
         if matches!(n, "core::result::Result::<T, E>::is_ok" | "core::result::Result::<T, E>::is_err" | "core::option::Option::<T>::is_some" | "core::option::Option::<T>::is_none") {
             let v = self.deref_val(st, a.get(0)?);
             if let Val::Enum(e) = &v {
@@ -977,7 +992,10 @@ impl<'tcx> Interp<'tcx> {
             self.free_temp(st, &slot);
             return one(Val::unit());
         }
-        if n == "core::iter::Iterator::all" {
+        if n == "core::iter::Iterator::all" || n == "core::iter::Iterator::any" {
+            // `all` goes on while the predicate is true and stops with false; `any` is the dual
+            let go_on: i128 = if n == "core::iter::Iterator::all" { 1 } else { 0 };
+            let stop: i128 = 1 - go_on;
             // receiver is &mut iterator
             let recv = a.get(0)?;
             let mut it = self.iter_of(st, recv)?;
@@ -992,19 +1010,26 @@ impl<'tcx> Interp<'tcx> {
                     Next::Item(v, maybe) => {
                         let parts = self.call_closure(cur.clone(), &Val::Ref(slot.clone()), tys[1], vec![v.clone()]);
                         let mut t_state: Option<State> = None;
+                        if self.taint_track {
+                            // an undecided predicate may come back as one partition per outcome, each a constant
+                            let outcomes: std::collections::BTreeSet<Option<i128>> = parts.iter().map(|(_, r)| r.as_int().and_then(|i| i.is_const())).collect();
+                            if outcomes.len() > 1 && parts.iter().any(|(_, r)| r.taint_of() != 0) {
+                                self.leak(if go_on == 1 { "iterator-all" } else { "iterator-any" }, "short-circuit on a predicate over tainted data");
+                            }
+                        }
                         for (s, r) in parts {
                             let c = r.as_int().and_then(|i| i.is_const());
                             if self.taint_track && r.taint_of() != 0 && c.is_none() {
-                                // `all` stops at the first false: the position of a failing secret element leaks
-                                self.leak("iterator-all", "short-circuit on a predicate over tainted data");
+                                // stops at the first deciding element: the position of that secret element leaks
+                                self.leak(if go_on == 1 { "iterator-all" } else { "iterator-any" }, "short-circuit on a predicate over tainted data");
                             }
-                            if c != Some(0) {
+                            if c != Some(stop) {
                                 t_state = Some(match t_state {
                                     Some(x) => x.join(&s),
                                     None => s.clone(),
                                 });
                             }
-                            if c != Some(1) {
+                            if c != Some(go_on) {
                                 // element value on the rejecting path (for reject-witness probes)
                                 let ev = match &v {
                                     Val::Ref(p) => self.read_ptr(&s, p),
@@ -1043,11 +1068,11 @@ impl<'tcx> Interp<'tcx> {
             let mut out: Parts = Vec::new();
             if alive {
                 self.free_temp(&mut cur, &slot);
-                out.push((Some(cur), Val::Int(IntV::boolean(true))));
+                out.push((Some(cur), Val::Int(IntV::boolean(go_on == 1))));
             }
             if let Some(mut f) = false_acc {
                 self.free_temp(&mut f, &slot);
-                out.push((Some(f), Val::Int(IntV::boolean(false))));
+                out.push((Some(f), Val::Int(IntV::boolean(go_on == 0))));
             }
             return Some(out);
         }
